@@ -946,3 +946,7 @@ CLAUSES = [
     Clause("C04.channel_dim", cdim_cases, cdim_check, tol="exact", doc="channel_dim on every Kraus form / Choi matrix, dim forms int/vector/2x2, allow_rect, env dim, rejections"),
     Clause("C04.reference", ref_cases, ref_check, tol="alg", probe=1, doc="reference formulations cross-checked against each other (no toqito call)"),
 ]
+
+# every toqito call of this property is repeated with column-major copies of its array arguments (engine.call, layout twin)
+for _c in CLAUSES:
+    _c.layout_twin = True
